@@ -28,6 +28,18 @@ def base_alloc(t):
         return t
 
 
+def container_id(t):
+    """identity of a container for comparisons: the allocation, with in-place mutation wrappers and loop-carried joins
+    removed at every depth (the dimensions of an allocation may mention other matrices that are filled in loops; how
+    often the evaluator unrolled such a loop must not matter) and call sites dropped"""
+    if not isinstance(t, tuple) or not t:
+        return t
+    t = base_alloc(t)
+    if t[0] == "call" and len(t) == 5:
+        return ("call", t[1], t[2], tuple(container_id(x) for x in t[3]), None)
+    return tuple(container_id(x) if isinstance(x, tuple) else x for x in t)
+
+
 def dimval(t):
     """strip Dyn{..}/Dim::from_usize/Dim::value wrappers around a usize term"""
     while True:
@@ -35,6 +47,10 @@ def dimval(t):
             t = t[3][0][1]
         elif t[0] == "call" and t[1].rsplit("::", 1)[-1] in ("from_usize", "value") and "Dim" in t[1] and t[3]:
             t = t[3][0]
+        elif t[0] == "field" and t[2] in ("0", "1") and t[1][0] == "call" and len(t[1]) == 5 and t[1][3] and \
+                t[1][1].rsplit("::", 1)[-1] in ("shape_generic", "shape") and "nalgebra" in t[1][1]:
+            # `let (r, c) = m.shape_generic()`: the components are the row and column counts
+            t = ("call", "nalgebra::Matrix::" + ("nrows" if t[2] == "0" else "ncols"), None, (t[1][3][0],), None)
         elif t[0] == "bin":
             return ("bin", t[1], dimval(t[2]), dimval(t[3]))
         else:
@@ -432,9 +448,9 @@ def rule_model_jac(F, ev, R, config, rule="R-MODEL-JAC"):
     cn = tab.Canon(ev)
     effs = list(fx.iteration_effects(ev, env))
     writes = tab.column_writes(cn, effs)
-    CAT = nosite(cn.container(J))
+    CAT = container_id(cn.container(J))
     evl = lambda t: t[0] == "payload" and is_call(t[1], TRAIT_MODEL + "::eval") and t[1][3] == (model,)
-    cat_w = [w for w in writes if nosite(w.D) == CAT]
+    cat_w = [w for w in writes if container_id(w.D) == CAT]
     left = right = None
     for w in cat_w:
         v = w.val
@@ -464,7 +480,7 @@ def rule_model_jac(F, ev, R, config, rule="R-MODEL-JAC"):
     cvec = None
     if right_src is not None:
         for w in writes:
-            if nosite(w.D) != nosite(right_src):
+            if container_id(w.D) != container_id(right_src):
                 continue
             v = w.val
             if v[0] == "call" and v[1] == "std::ops::Mul::mul" and len(v[3]) == 2:
@@ -486,7 +502,7 @@ def rule_model_jac(F, ev, R, config, rule="R-MODEL-JAC"):
     R.add(rule, config, b.key, "nonlinear-block: |S|×|P|", okalloc, "" if okalloc else "derivative block allocated as `%s`" % (short(nl_alloc)[:120] if nl_alloc else None), s.get("span"))
     R.add(rule, config, b.key, "concat: left block at columns idx", left_ok, "" if left_ok else "left block is not copied column idx → column idx (all columns)", s.get("span"))
     R.add(rule, config, b.key, "concat: right block at columns idx+|left|", right_ok, "" if right_ok else "right block is not copied column idx → column idx + ncols(left) (all columns)", s.get("span"))
-    okorder = (left_src is not None and right_src is not None and nl_alloc is not None and evl(left_src) and nosite(right_src) == nosite(nl_alloc))
+    okorder = (left_src is not None and right_src is not None and nl_alloc is not None and evl(left_src) and container_id(right_src) == container_id(nl_alloc))
     R.add(rule, config, b.key, "order: [Φ | derivatives]", okorder,
           "" if okorder else "the concatenation is not [eval(model) | derivative block]: left=%s right=%s" % (short(left_src)[:60] if left_src else None, short(right_src)[:60] if right_src else None), s.get("span"))
     okcat = False
